@@ -187,11 +187,12 @@ def run(ctx: Ctx) -> int:
     mt = ctx.lean.drive([f"lang|tr{t}|{s}" for s, t in zip(sxs, two)])
     mpy = ctx.lean.drive([f"lang|pyrun|{s}|{n}|{FUEL}" for s, n in zip(sxs, passes)])
     mc = ctx.lean.drive([f"lang|crun{t}|{s}|{n}|{FUEL}" for s, n, t in zip(sxs, passes, two)])
+    mcraw = ctx.lean.drive([f"lang|crunraw{t}|{s}|{n}|{FUEL}" for s, n, t in zip(sxs, passes, two)])
     jobs = [(cpp, n, "") for (cpp, e), n in zip(outs, passes) if cpp is not None]
     it = iter(cxx.run_many(ctx, jobs))
     results = [next(it) if cpp is not None else None for cpp, e in outs]
     norm = lambda text: [" ".join(l.split()) for l in text.split("\n") if l.strip() and not l.strip().startswith("//")]
-    for p, src, sx, n, (cpp, exc), res, t, rpy, rc, t2 in zip(progs, srcs, sxs, passes, outs, results, mt, mpy, mc, two):
+    for p, src, sx, n, (cpp, exc), res, t, rpy, rc, rcraw, t2 in zip(progs, srcs, sxs, passes, outs, results, mt, mpy, mc, mcraw, two):
         ctx.count("programs" + ("-with-promotion" if t2 else ""))
         for opn in OPS_COUNTED:
             if f"(bin {opn} " in sx or f" {opn} (" in sx or f"({opn} " in sx:
@@ -230,26 +231,53 @@ def run(ctx: Ctx) -> int:
                 ctx.tie_diff("tie S_py (Lang.Py.run vs CPython)", replay, rpy[:300], want[:300])
         else:
             ctx.count("python-raises:" + type(err).__name__)
-            if rpy.startswith("ok"):
+            if rpy.startswith("ok") or (isinstance(err, ZeroDivisionError) and rpy != "error ZeroDivisionError"):
                 ctx.tie_diff("tie S_py (Lang.Py.run vs CPython)", replay, rpy[:200], "raises " + type(err).__name__)
-        # ---- S_c
+        # ---- S_c: the strict reading of `/`, `%` (the one the theorem speaks about) stops at a division with a negative operand; the raw
+        #      reading (C's own operators) is tied to g++ on every run
+        signed = rc == "error signed-division"
+        signed_key = "core:floor-division-negative" if "fdiv" in sx else "core:modulo-negative"
+        if signed:
+            ctx.count("c-signed-division (strict reading stops; raw reading tied)")
         if res.compile_error or not res.ok:
+            if rcraw == "error ZeroDivisionError" and not res.compile_error:
+                # the model's raw run divides by zero (undefined in C; SIGFPE on the host)
+                if isinstance(err, ZeroDivisionError):
+                    ctx.count("c-division-by-zero (CPython raises ZeroDivisionError at the same point)")
+                    continue
+                if signed:
+                    ctx.fail(signed_key, "after a `/` or `%` with a negative operand the sketch goes on to divide by zero where CPython does not", replay)
+                    continue
             ctx.fail("core:compile", f"accepted script does not compile/run: {(res.compile_error or res.stderr)[:300]}", replay)
             continue
-        if rc == "error overflow":
+        if rc == "error overflow" or rcraw == "error overflow":
             ctx.count("c-int-overflow (outside Fits)")
             continue
         fw = pyoracle.fw_events(res.trace)
         got = "ok " + ev_str(fw)
         if rc.startswith("ok") and rc != got:
             ctx.tie_diff("tie S_c (Lang.C.run vs compiled sketch)", replay, rc[:300], got[:300])
+        if rc.startswith("ok") and rcraw != rc:
+            ctx.tie_diff("strict_run_is_raw_run (driver: a successful strict run is the raw run)", replay, rc[:300], rcraw[:300])
+        if rcraw.startswith("ok"):
+            ctx.count("raw-runs-tied-to-g++")
+            if rcraw != got:
+                ctx.tie_diff("tie S_c raw (Lang.C.run .raw vs compiled sketch)", replay, rcraw[:300], got[:300])
         # ---- E
         if err is None:
             a = [(k, str(v) if k == "w" else int(v)) for k, v in py]
             b = [(k, str(v) if k == "w" else int(v)) for k, v in fw]
             if a != b:
                 i = next((j for j, (x, y) in enumerate(zip(a, b)) if x != y), min(len(a), len(b)))
-                ctx.fail("core:trace", f"firmware differs from CPython at event {i}: python {a[i:i+4]} firmware {b[i:i+4]}", {**replay, "python": a[:40], "firmware": b[:40]})
+                what = f"firmware differs from CPython at event {i}: python {a[i:i+4]} firmware {b[i:i+4]}"
+                if signed:
+                    # the model explains the difference: its strict C run stops at a signed division (K01b / K01c), its raw run is the firmware's
+                    ctx.count("E-differs-after-signed-division (known K01b/K01c)")
+                    ctx.fail(signed_key, what, {**replay, "python": a[:40], "firmware": b[:40]})
+                else:
+                    ctx.fail("core:trace", what, {**replay, "python": a[:40], "firmware": b[:40]})
+            elif signed:
+                ctx.count("E-agrees-although-signed-division (exact or same-sign division)")
     # ---- `break` in the main loop must be rejected in every nesting through if/try
     for body in ["    break\n", "    if a > 0:\n        break\n", "    if a > 0:\n        a = 1\n    else:\n        break\n",
                  "    try:\n        break\n    except Exception:\n        a = 2\n", "    try:\n        a = 1\n    except Exception:\n        break\n",
